@@ -215,6 +215,26 @@ pub fn run_stream(args: &Args) -> (u64, u64) {
             stream_dir(&mut c, &mut rng, &mut sv, &mut cl, 100, false);
         }
     }
+    // typed header helpers on boundary sizes / opcodes (bytes and state against the specification)
+    {
+        c.reset("stream-headers");
+        if let Some((mut cl, mut sv)) = pair(&mut c, exp, "HDRS", rnd40(&mut rng), None, rng.gen()) {
+            let sizes: Vec<u32> = if exp == "wrath" { vec![0, 0x7FFF, 0x8000, 0xFFFF, 0x10000, 0x7FFFFF] } else { vec![0, 0x7F, 0x80, 0x7FFF, 0x8000, 0xFFFF] };
+            for (k, size) in sizes.iter().enumerate() {
+                let op = OPCODES[k % OPCODES.len()];
+                let via = if k % 2 == 0 { "combined" } else { "half" };
+                if let Some(h) = c.enc_server_hdr(&mut sv, *size, op, via) {
+                    c.sent = Some((*size, op as u32));
+                    c.read_hdr(&mut cl, "server", &[Step::Data(h)], via);
+                }
+                let op32 = [0u32, 0xFFFF, 0x10000, 0x0100_0000, 0xFFFF_FFFF, 0x1DC][k % 6];
+                if let Some(h) = c.enc_client_hdr(&mut cl, (*size & 0xFFFF) as u16, op32, via) {
+                    c.sent = Some((*size & 0xFFFF, op32));
+                    c.read_hdr(&mut sv, "client", &[Step::Data(h)], via);
+                }
+            }
+        }
+    }
     // many keys, short traffic: key derivation of both halves on both sides
     let nkeys = args.n.unwrap_or(if thorough { 3000 } else { 150 });
     let mut base = rnd40(&mut rng);
@@ -236,6 +256,15 @@ pub fn run_stream(args: &Args) -> (u64, u64) {
                 base
             }
         };
+        if k % 6 == 5 {
+            // a session whose key shares the first (or the last) 20 bytes, created immediately before
+            let mut kd = key;
+            if k % 12 == 5 { for x in kd.iter_mut().skip(20) { *x = !*x; } } else { for x in kd.iter_mut().take(20) { *x = !*x; } }
+            if let Some((d1, d2)) = pair(&mut c, exp, "KEYS", kd, None, rng.gen()) {
+                c.drop_conn(&d1);
+                c.drop_conn(&d2);
+            }
+        }
         let Some((mut cl, mut sv)) = pair(&mut c, exp, "KEYS", key, None, rng.gen()) else { continue };
         stream_dir(&mut c, &mut rng, &mut cl, &mut sv, 70, false);
         stream_dir(&mut c, &mut rng, &mut sv, &mut cl, 70, false);
@@ -719,9 +748,34 @@ pub fn run_halves(args: &Args) -> (u64, u64) {
                 c.reset("halves");
             }
             count += 1;
+            // decoy sessions created just before, whose keys share the first / the last 20 bytes with ours
+            // scenarios with a decoy use a fresh session key of their own (nothing derived from it exists yet)
+            let key = if count % 5 == 1 { rnd40(&mut rng) } else { key };
+            if count % 5 == 1 {
+                // exactly one decoy immediately before ours: alternately sharing the first or the last 20 key bytes
+                let mut kd = key;
+                if count % 10 == 1 {
+                    for x in kd.iter_mut().skip(20) { *x ^= 0x5A; }
+                } else {
+                    for x in kd.iter_mut().take(20) { *x ^= 0xA5; }
+                }
+                if let Some((d1, d2)) = pair(&mut c, exp, "DECOY", kd, None, 12) {
+                    c.drop_conn(&d1);
+                    c.drop_conn(&d2);
+                }
+            }
             let Some((mut cl, sv)) = pair(&mut c, exp, "HALVES", key, None, 11) else { continue };
-            // reference objects: one handles only the sending direction, the other only the receiving one
-            let (Some(mut ref_e), Some(mut ref_d)) = (cl.enc_clone(), cl.dec_clone()) else { continue };
+            // reference objects, built SEPARATELY (own world login on a fresh thread, nothing else alive there):
+            // one handles only the sending direction, the other only the receiving one
+            let refs = std::thread::spawn(move || {
+                let u = wow_srp::normalized_string::NormalizedString::new("HALVES").unwrap();
+                match exp {
+                    "vanilla" => { let (_, x) = wow_srp::vanilla_header::ProofSeed::new().into_client_header_crypto(&u, key, 11); let (e, d) = x.split(); (En::V(e), De::V(d)) }
+                    "tbc" => { let (_, x) = wow_srp::tbc_header::ProofSeed::new().into_client_header_crypto(&u, key, 11); let (e, d) = x.split(); (En::T(e), De::T(d)) }
+                    _ => { let (_, x) = wow_srp::wrath_header::ProofSeed::new().into_client_header_crypto(&u, key, 11); let (e, d) = x.split(); (En::WC(e), De::WC(d)) }
+                }
+            }).join();
+            let Ok((mut ref_e, mut ref_d)) = refs else { continue };
             let mut clones: Vec<Conn> = vec![];
             for op in s["ops"].as_array().unwrap() {
                 let name = op["op"].as_str().unwrap();
